@@ -18,7 +18,7 @@ CHECK = {'level': 'exploration',
                  'misses the colon of a table key: an over-long line holding a key is measured one short per key), F-LASTLINE-LEN (an unterminated over-long last line is '
                  'never measured)',
                  'one defect per document; LF line terminators only; loop packets compared as multisets'],
- 'min_evaluations': 1500,
+ 'min_evaluations': 3000,
  'technique': 'property-based testing (rapidcheck): well-formed host x planting table (defect class x position); oracle from the recovery table: first code, line window, '
               'follow-up set, recovered dump, default-handler result, silent negative control',
  'level_text': 'Generated search over host documents x defect classes x positions under ASan/UBSan with allocation balance; every case also parses the un-planted host '
@@ -26,5 +26,5 @@ CHECK = {'level': 'exploration',
                '<= depth 3).',
  'level_note': 'Trusted: my renderer and planters (their reading of the recovery table), dump()/model code, rapidcheck, sanitizers.',
  'engines': [{'src': 'pbt/C12_defects.cpp',
-              'quick': {'workers': 8, 'cases': 450, 'size': 100},
-              'thorough': {'workers': 16, 'cases': 8000, 'size': 120}}]}
+              'quick': {'workers': 8, 'cases': 1100, 'size': 100},
+              'thorough': {'workers': 16, 'cases': 40000, 'size': 120}}]}
